@@ -318,6 +318,198 @@ theorem C14_built_scalar (k ty tok : String) (rest : KV) (log : List Ctor) :
     (instArgs ((k, .lit ty tok) :: rest) log).2.head? = some (k, Arg.lit ty tok) := by
   simp [instArgs, inst]
 
+/-! ## `List[Class]` and `Dict[str, Class]` (the List and Dict branches of `adapt_typehints`, as written) -/
+
+/-- the previous value of an element satisfies the hypothesis of `C14_checked_step` -/
+def ElemValid (E : ClassEnv) (base : String) (prev : Option Val) : Prop :=
+  ∀ pcp pia pdk, prev = some (.spec (some pcp) pia pdk) →
+    ∀ path params, checkImport E base path = .ok (pcp, params) → ArgsValid params pia
+
+/-- the conclusion of `C14_checked_step` for one element -/
+def ElemChecked (E : ClassEnv) (base : String) (s : Val) : Prop :=
+  ∃ cp ia dk path params, s = .spec (some cp) ia dk ∧ checkImport E base path = .ok (cp, params) ∧ ArgsValid params ia
+
+/-- DICT, per key: adapting a dict value with a (non-empty) previous dict `P` gives the same keys in the same order and, at
+    EVERY key `k`, exactly the adaptation of the given value with the previous value of that very key, `P[k]` (absent:
+    no previous value) — whatever the position of the key; and conversely these element results make up the result -/
+theorem C14_dict_per_key (rec : String → Option Val → Val → Except Err Val) (b : String) (P kvs ys : KV) (hP : P ≠ []) :
+    adaptDictWith rec b (some (.dct P)) (.dct kvs) = .ok (.dct ys) ↔
+      Pointwise (fun kv y => y.1 = kv.1 ∧ rec b (getKV kv.1 P) kv.2 = .ok y.2) kvs ys := by
+  have hprev : ∀ k, dictPrev (some (.dct P)) k = getKV k P := fun k => dictPrev_nonempty P k hP
+  rw [show (fun (kv : String × Val) (y : String × Val) => y.1 = kv.1 ∧ rec b (getKV kv.1 P) kv.2 = .ok y.2)
+      = (fun kv y => y.1 = kv.1 ∧ rec b (dictPrev (some (.dct P)) kv.1) kv.2 = .ok y.2) from by
+    funext kv y; rw [hprev]]
+  rw [← adaptEntries_iff]
+  simp only [adaptDictWith]
+  constructor
+  · intro h
+    split at h
+    · cases h
+    · rename_i ys' hys
+      cases h
+      exact hys
+  · intro h
+    simp only [h]
+
+/-- … so a key whose earlier value names a class keeps THAT class when the later value is a short form: the class_path a
+    short form is completed with is the key's own previous one -/
+theorem C14_dict_short_form_uses_own_class (E : ClassEnv) (b cp : String) (ia dk : KV) :
+    prevCpOf E b (some (.spec (some cp) ia dk)) = some cp := rfl
+
+/-- the dotted per-key form `--table.KEY=value` sets that one key (the WHOLE dotted remainder is the key) and keeps the
+    other keys of the previous dict (each re-adapted with itself as previous value) -/
+theorem C14_dict_dotted_key (rec : String → Option Val → Val → Except Err Val) (b : String) (P : KV) (key : List String)
+    (v : Val) :
+    adaptDictWith rec b (some (.dct P)) (.nested key v)
+      = adaptDictWith rec b (some (.dct P)) (.dct (setKV (joinKey key) v P)) := rfl
+
+/-- LIST, per item: when the previous list has the SAME length, item `n` is adapted with `P[n]` as previous value -/
+theorem C14_list_per_item (rec : String → Option Val → Val → Except Err Val) (b : String) (P xs ys : List Val)
+    (hlen : P.length = xs.length) :
+    adaptListWith rec b (some (.lst P)) (.lst xs) = .ok (.lst ys) ↔
+      Pointwise (fun (pv : Val × Val) y => rec b (some pv.1) pv.2 = .ok y) (P.zip xs) ys := by
+  have hl : listPrevs (some (.lst P)) xs.length = P.map some := by simp [listPrevs, hlen]
+  have hz : (P.map some).zip xs = (P.zip xs).map (fun pv => (some pv.1, pv.2)) := by
+    rw [List.zip_map_left]
+    apply List.map_congr_left
+    intro pv _
+    rfl
+  simp only [adaptListWith, hl]
+  have key := adaptItems_iff rec b xs (P.map some) ys (by simp [hlen])
+  rw [hz] at key
+  have conv := Pointwise.map_left (fun (pv : Val × Val) => ((some pv.1, pv.2) : Option Val × Val))
+    (fun (pv : Option Val × Val) y => rec b pv.1 pv.2 = .ok y) (P.zip xs) ys
+  rw [← conv, ← key]
+  constructor
+  · intro h
+    split at h
+    · cases h
+    · rename_i ys' hys
+      cases h
+      exact hys
+  · intro h
+    simp only [h]
+
+/-- … and when the length DIFFERS no item has a previous value of its own: every item gets the whole previous list,
+    which names no class -/
+theorem C14_list_other_length (rec : String → Option Val → Val → Except Err Val) (b : String) (P xs ys : List Val)
+    (hlen : P.length ≠ xs.length) :
+    adaptListWith rec b (some (.lst P)) (.lst xs) = .ok (.lst ys) ↔
+      Pointwise (fun (pv : Option Val × Val) y => rec b pv.1 pv.2 = .ok y)
+        ((List.replicate xs.length (some (.lst P))).zip xs) ys := by
+  have hl : listPrevs (some (.lst P)) xs.length = List.replicate xs.length (some (.lst P)) := by simp [listPrevs, hlen]
+  simp only [adaptListWith, hl]
+  rw [← adaptItems_iff rec b xs _ ys (by simp)]
+  constructor
+  · intro h
+    split at h
+    · cases h
+    · rename_i ys' hys
+      cases h
+      exact hys
+  · intro h
+    simp only [h]
+
+/-- a whole list as "previous value" of an item: no class to complete a short form from and no implicit class_path
+    (short forms are rejected); a value that names its class is adapted as if there were no previous value at all -/
+theorem C14_list_prev_names_no_class (E : ClassEnv) (fuel : Nat) (b : String) (P : List Val) :
+    prevCpOf E b (some (.lst P)) = none
+    ∧ (∀ s, adapt E fuel b (some (.lst P)) (.lit "str" s) = adapt E fuel b none (.lit "str" s))
+    ∧ (∀ cp ia dk, adapt E fuel b (some (.lst P)) (.spec (some cp) ia dk) = adapt E fuel b none (.spec (some cp) ia dk)) := by
+  refine ⟨by simp [prevCpOf, prevParts, isNone], ?_, ?_⟩
+  · intro s
+    cases fuel with
+    | zero => rfl
+    | succ n => simp only [adapt, asNamespace, prevParts]
+  · intro cp ia dk
+    cases fuel with
+    | zero => rfl
+    | succ n => simp only [adapt, asNamespace, prevParts]
+
+/-- `--opt+=value` appends: the old items keep themselves as previous value, the new item has none -/
+theorem C14_list_append (rec : String → Option Val → Val → Except Err Val) (b : String) (P : List Val) (v : Val)
+    (hv : ∀ xs, v ≠ .lst xs) :
+    adaptListAppendWith rec b (some (.lst P)) v
+      = (match adaptItems rec b (P.map some ++ [none]) (P ++ [v]) with
+         | .error e => .error e
+         | .ok ys => .ok (.lst ys)) := by
+  cases v with
+  | lst xs => exact absurd rfl (hv xs)
+  | lit _ _ => rfl
+  | spec _ _ _ => rfl
+  | bare _ => rfl
+  | nested _ _ => rfl
+  | dct _ => rfl
+
+theorem adaptEntries_checked (E : ClassEnv) (fuel : Nat) (b : String) (prev : Option Val)
+    (hprev : ∀ k, ElemValid E b (dictPrev prev k)) :
+    ∀ (kvs ys : KV), adaptEntries (adapt E fuel) b prev kvs = .ok ys → ∀ y ∈ ys, ElemChecked E b y.2 := by
+  intro kvs ys h y hy
+  obtain ⟨kv, _, _, hr⟩ := ((adaptEntries_iff (adapt E fuel) b prev kvs ys).mp h).of_mem_right y hy
+  exact C14_checked_step E fuel b (dictPrev prev kv.1) kv.2 y.2 hr (hprev kv.1)
+
+/-- every element of an accepted dict / list of classes satisfies `C14_checked`: it names an import that is a subclass of
+    the declared element type (or a function returning one) with init_args valid for that very class — provided the
+    previous elements did -/
+theorem C14_checked_containers (E : ClassEnv) (fuel : Nat) (b : String) (prev : Option Val) :
+    (∀ kvs r, (∀ k, ElemValid E b (dictPrev prev k)) →
+        adaptDictWith (adapt E fuel) b prev (.dct kvs) = .ok r → ∃ ys, r = .dct ys ∧ ∀ y ∈ ys, ElemChecked E b y.2)
+    ∧ (∀ xs r, (∀ p ∈ listPrevs prev xs.length, ElemValid E b p) →
+        adaptListWith (adapt E fuel) b prev (.lst xs) = .ok r → ∃ ys, r = .lst ys ∧ ∀ y ∈ ys, ElemChecked E b y) := by
+  constructor
+  · intro kvs r hprev h
+    simp only [adaptDictWith] at h
+    split at h
+    · cases h
+    · rename_i ys hys
+      cases h
+      exact ⟨ys, rfl, adaptEntries_checked E fuel b prev hprev kvs ys hys⟩
+  · intro xs r hprev h
+    simp only [adaptListWith] at h
+    split at h
+    · cases h
+    · rename_i ys hys
+      cases h
+      refine ⟨ys, rfl, ?_⟩
+      intro y hy
+      have hp := (adaptItems_iff (adapt E fuel) b xs (listPrevs prev xs.length) ys (listPrevs_length prev xs.length)).mp hys
+      obtain ⟨pv, hpv, hr⟩ := hp.of_mem_right y hy
+      exact C14_checked_step E fuel b pv.1 pv.2 y hr (hprev pv.1 (List.of_mem_zip hpv).1)
+
+/-- instantiation of a list / dict of specs: exactly one constructor call per spec (nested ones included), object
+    references only backwards (children first), and the elements are built IN CONTAINER ORDER: the log indices of the
+    element objects increase strictly and every one of them exists -/
+theorem C14_built_containers (xs : List Val) (kvs : KV) :
+    ((instantiate (.lst xs)).length = countSpecsList xs ∧ Backward (instantiate (.lst xs))
+      ∧ List.Pairwise (· < ·) ((instList xs []).2.filterMap id)
+      ∧ ∀ i ∈ (instList xs []).2.filterMap id, i < (instantiate (.lst xs)).length)
+    ∧ ((instantiate (.dct kvs)).length = countSpecsKV kvs ∧ Backward (instantiate (.dct kvs))
+      ∧ List.Pairwise (· < ·) ((instDict kvs []).2.filterMap (·.2))
+      ∧ ∀ i ∈ (instDict kvs []).2.filterMap (·.2), i < (instantiate (.dct kvs)).length) := by
+  have hb0 : Backward [] := by intro j hj; cases hj
+  constructor
+  · obtain ⟨new, h1, h2, h3, h4⟩ := instList_spec xs [] hb0
+    refine ⟨by simp [instantiate, inst, h1, h2], by simpa [instantiate, inst] using h3, (instList_sorted xs []).1, ?_⟩
+    intro i hi
+    simp only [List.mem_filterMap, id_eq, exists_eq_right] at hi
+    simpa [instantiate, inst] using h4 i hi
+  · obtain ⟨new, h1, h2, h3, h4⟩ := instDict_spec kvs [] hb0
+    refine ⟨by simp [instantiate, inst, h1, h2], by simpa [instantiate, inst] using h3, (instDict_sorted kvs []).1, ?_⟩
+    intro i hi
+    simp only [List.mem_filterMap] at hi
+    obtain ⟨e, he, hei⟩ := hi
+    simpa [instantiate, inst] using h4 e he i hei
+
+/-- the element object IS the (last) constructor call of the class its spec names -/
+theorem C14_built_container_item (cp : String) (ia dk : KV) (rest : List Val) (log : List Ctor) :
+    ∃ i, (instList (.spec (some cp) ia dk :: rest) log).2.head? = some (some i)
+      ∧ ((instList (.spec (some cp) ia dk :: rest) log).1[i]?).map (·.target) = some cp := by
+  obtain ⟨n2, b1⟩ := instList_grows rest (inst (.spec (some cp) ia dk) log).1
+  refine ⟨(instArgs ia log).1.length, by simp [instList, inst, objIdx], ?_⟩
+  simp only [instList]
+  rw [b1]
+  simp [inst]
+
 /-! ## short notations -/
 
 /-- `--opt=Name` is `--opt {"class_path": "Name"}` -/
@@ -449,6 +641,22 @@ example : SigDetermined exE "m.Base" := by
     simp only [exE, List.mem_cons, List.mem_nil_iff, or_false] at hm
     rcases hm with rfl | rfl | rfl | rfl | rfl | rfl | rfl | rfl <;> simp at h
   · cases h
+
+/-- OPEN FINDING C14-dotted-sub-option-into-dict-entry.  `--table.dec.init_args.b=8` for `--table: Dict[str, Base]` whose
+    entry `dec` is a `Sub2`: the Dict branch takes the whole remainder as ONE key, so the value `8` is adapted as the
+    class of a new entry `dec.init_args.b` (an import failure) instead of becoming the init arg `b` of the entry `dec`;
+    with a value that names a class, an entry under that odd key is silently added -/
+theorem C14_dotted_into_dict_entry_witness :
+    (match adaptArgAll exE 8 (.dictOf "m.Base")
+        [{ raw := .dct [("dec", .spec (some "Sub2") [("c", .lit "int" "1")] [])] },
+         { raw := .nested ["dec", "init_args", "c"] (.lit "str" "8") }] with
+     | .error e => e == .importFail
+     | _ => false) = true
+    ∧ (match adaptArgAll exE 8 (.dictOf "m.Base")
+        [{ raw := .dct [("dec", .spec (some "Sub2") [("c", .lit "int" "1")] [])] },
+         { raw := .nested ["dec", "init_args", "c"] (.lit "str" "Sub") }] with
+     | .ok (some (.dct kvs)) => kvs.map (·.1) == ["dec", "dec.init_args.c"]
+     | _ => false) = true := by decide
 
 /-- OPEN FINDING C14-stale-dict-kwargs.  `{class_path: KW, dict_kwargs: {x: 1}}` then `--opt=Sub`: the class changes, the
     init_args that `Sub` does not accept would be discarded, but the dict_kwargs of `KW` are still there — and `Sub`
